@@ -258,6 +258,14 @@ def run_case(sc):
                 if len(td._data):
                     p = td.export_csv(os.path.join(out, 'export.csv'))
                     ld['csv'] = open(p).read()
+                    # a selection of columns in the order the user asks for (not ascending; time not first)
+                    import random as _rnd
+                    r_ = _rnd.Random(sc.get('qseed', 1) * 7 + 3)
+                    sel = [int(i) for i in td._idx]
+                    r_.shuffle(sel)
+                    sel = sel[:max(2, min(6, len(sel)))]
+                    p2 = td.export_csv(os.path.join(out, 'export_sel.csv'), idx=list(sel))
+                    ld['csv_sel'] = [sel, open(p2).read()]
             except Exception as e:
                 ld['csv_error'] = type(e).__name__ + ': ' + str(e)[:100]
             obs['loader'] = ld
@@ -508,6 +516,19 @@ def oracle(sc, obs):
             body = [(float(c[0]), [float(v) for v in c[1:]]) for c in (ln.split(',') for ln in lines_[1:])]
             if not same_rows(body, last['file']):
                 bad.append(('csv-body-differs', 'exported csv values differ from the stored values'))
+            if 'csv_sel' in ld and len(lines_) > 1:
+                csel, txt = ld['csv_sel']
+                ls = txt.strip('\n').split('\n')
+                full = [[float(v) for v in ln.split(',')] for ln in lines_[1:]]      # all columns, in idx order
+                pos = {i: k for k, i in enumerate(ld['idx'])}
+                if ls[0].split(',') != [ld['uname'][pos[i]] for i in csel]:
+                    bad.append(('csv-header-wrong', 'csv export of the columns %r: header %r' % (csel, ls[0].split(',')[:4])))
+                else:
+                    got = [[float(v) for v in ln.split(',')] for ln in ls[1:]]
+                    want = [[row[pos[i]] for i in csel] for row in full]
+                    if got != want:
+                        bad.append(('csv-column-under-wrong-label', 'csv export of the columns %r (in this order): the values under a label '
+                                    'are those of another variable (first row %r, stored %r)' % (csel, got[0][:4] if got else None, want[0][:4] if want else None)))
     ml = obs.get('memload')
     if ml is not None:
         if 'error' in ml:
